@@ -148,14 +148,18 @@ Proof.
 Qed.
 
 (** mod_neg_inv = -(m^-1) mod 2^64 *)
-Theorem mod_neg_inv_of_correct m0 : Z.odd m0 = true -> 0 <= m0 < B ->
-  let k := wsub 0 (inv_mod2k_word m0) in is_word k /\ (m0 * k + 1) mod B = 0.
+Lemma neg_of_inverse m0 x : (m0 * x) mod B = 1 -> (m0 * ((0 - x) mod B) + 1) mod B = 0.
 Proof.
-  intros Ho Hm0. cbv zeta. destruct (inv_mod2k_word_correct m0 Ho Hm0) as (Hx & Hinv).
-  unfold wsub, wrap. split; [apply is_word_mod|]. pose proof B_gt1.
+  intros Hinv. pose proof B_gt1.
   rewrite Z.sub_0_l. rewrite Zplus_mod, Zmult_mod, Z.mod_mod, <- Zmult_mod, <- Zplus_mod by lia.
-  replace (m0 * - inv_mod2k_word m0 + 1) with (1 - m0 * inv_mod2k_word m0) by ring.
-  rewrite Zminus_mod, Hinv. rewrite Z.mod_1_l by lia. reflexivity.
+  replace (m0 * - x + 1) with (1 - m0 * x) by ring.
+  rewrite Zminus_mod, Hinv. rewrite Z.mod_1_l by lia. rewrite Z.sub_diag. apply Z.mod_0_l. lia.
+Qed.
+Theorem mod_neg_inv_of_correct m0 : Z.odd m0 = true -> 0 <= m0 < B ->
+  is_word (wsub 0 (inv_mod2k_word m0)) /\ (m0 * wsub 0 (inv_mod2k_word m0) + 1) mod B = 0.
+Proof.
+  intros Ho Hm0. destruct (inv_mod2k_word_correct m0 Ho Hm0) as (Hx & Hinv).
+  split; [apply is_word_mod | apply neg_of_inverse; exact Hinv].
 Qed.
 
 (** at most one word k satisfies m0 * k = -1 (mod 2^64) *)
@@ -185,29 +189,30 @@ Proof.
   rewrite Hq. exists (q * q). replace (2 * e) with (e + e) by lia. rewrite Z.pow_add_r by lia. ring.
 Qed.
 
+Lemma inverse_of_divides a x : (B | 1 - a * x) -> (a * x) mod B = 1.
+Proof.
+  intros [q Hq]. pose proof B_gt1. replace (a * x) with (1 + (- q) * B) by lia.
+  rewrite Z.mod_add by lia. apply Z.mod_1_l. lia.
+Qed.
 Theorem hensel_inv_correct a : Z.odd a = true -> (a * hensel_inv a) mod B = 1.
 Proof.
-  intros Ho. unfold hensel_inv. cbv [Nat.iter nat_rect].
-  set (f := fun x => (x * (2 - a * x)) mod B).
+  intros Ho. apply inverse_of_divides. rewrite B_val.
+  unfold hensel_inv. cbv [Nat.iter nat_rect].
   assert (H1 : (2 ^ 1 | 1 - a * 1)).
   { apply Z.mod_divide; [lia|]. change (2 ^ 1) with 2. rewrite Zminus_mod, Z.mul_1_r, (odd_mod2 a Ho). reflexivity. }
-  apply (hensel_step a 1 1) in H1; try lia. change (2 ^ (2 * 1)) with (2 ^ 2) in H1.
-  apply (hensel_step a _ 2) in H1; try lia. change (2 ^ (2 * 2)) with (2 ^ 4) in H1.
-  apply (hensel_step a _ 4) in H1; try lia. change (2 ^ (2 * 4)) with (2 ^ 8) in H1.
-  apply (hensel_step a _ 8) in H1; try lia. change (2 ^ (2 * 8)) with (2 ^ 16) in H1.
-  apply (hensel_step a _ 16) in H1; try lia. change (2 ^ (2 * 16)) with (2 ^ 32) in H1.
-  apply (hensel_step a _ 32) in H1; try lia. change (2 ^ (2 * 32)) with (2 ^ 64) in H1.
-  rewrite <- B_val in H1. fold f in H1. destruct H1 as [q Hq]. pose proof B_gt1.
-  replace (a * f (f (f (f (f (f 1)))))) with (1 + (- q) * B) by lia.
-  rewrite Z.mod_add by lia. apply Z.mod_1_l. lia.
+  apply (hensel_step a 1 1) in H1; try lia. change (2 * 1) with 2 in H1.
+  apply (hensel_step a _ 2) in H1; try lia. change (2 * 2) with 4 in H1.
+  apply (hensel_step a _ 4) in H1; try lia. change (2 * 4) with 8 in H1.
+  apply (hensel_step a _ 8) in H1; try lia. change (2 * 8) with 16 in H1.
+  apply (hensel_step a _ 16) in H1; try lia. change (2 * 16) with 32 in H1.
+  apply (hensel_step a _ 32) in H1; try lia. change (2 * 32) with 64 in H1.
+  exact H1.
 Qed.
 
 Theorem spec_neg_inv_correct m0 : Z.odd m0 = true -> is_word (spec_neg_inv m0) /\ (m0 * spec_neg_inv m0 + 1) mod B = 0.
 Proof.
-  intros Ho. unfold spec_neg_inv. split; [apply is_word_mod|]. pose proof B_gt1.
-  rewrite Zplus_mod, Zmult_mod, Z.mod_mod, <- Zmult_mod, <- Zplus_mod by lia.
-  replace (m0 * - hensel_inv m0 + 1) with (1 - m0 * hensel_inv m0) by ring.
-  rewrite Zminus_mod, (hensel_inv_correct m0 Ho). rewrite Z.mod_1_l by lia. reflexivity.
+  intros Ho. unfold spec_neg_inv. split; [apply is_word_mod|].
+  rewrite <- Z.sub_0_l. apply neg_of_inverse. apply hensel_inv_correct. exact Ho.
 Qed.
 
 (** the two computations agree *)
